@@ -26,6 +26,9 @@ var effectFreePrefixes = []string{
 	"(*com.tuntun.rangers/node/src/middleware/log.", "com.tuntun.rangers/node/src/utility.GetTime",
 	"com.tuntun.rangers/node/src/common.ToHex", "com.tuntun.rangers/node/src/common.Bytes2Hex", "com.tuntun.rangers/node/src/common.FromHex",
 	"(com.tuntun.rangers/node/src/common.Address).", "(com.tuntun.rangers/node/src/common.Hash).",
+	"com.tuntun.rangers/node/src/common.BytesToSign", "(*com.tuntun.rangers/node/src/common.Sign).Bytes", "(com.tuntun.rangers/node/src/common.Sign).Bytes", "(*com.tuntun.rangers/node/src/common.Sign).GetHexString",
+	"(time.Time).MarshalBinary", "(*math/big.Int).Bytes", "(*math/big.Int).String", "(*math/big.Int).Text",
+	"github.com/gogo/protobuf/proto.Marshal", "github.com/golang/protobuf/proto.Marshal",
 	"com.tuntun.rangers/node/src/common.BytesToAddress", "com.tuntun.rangers/node/src/common.BytesToHash", "com.tuntun.rangers/node/src/common.HexToAddress", "com.tuntun.rangers/node/src/common.HexToHash",
 	"com.tuntun.rangers/node/src/common.HexStringToAddress", "com.tuntun.rangers/node/src/common.BigToAddress",
 	"com.tuntun.rangers/node/src/common.IsProposal", "com.tuntun.rangers/node/src/common.GetBlockHeight", "com.tuntun.rangers/node/src/common.IsMainnet", "com.tuntun.rangers/node/src/common.IsRobin", "com.tuntun.rangers/node/src/common.IsDEV",
@@ -35,6 +38,17 @@ var effectFreePrefixes = []string{
 	"(reflect.Type).", "(reflect.Value).Kind", "(reflect.Value).Type", "(reflect.Value).Len", "(reflect.Value).IsNil", "(reflect.Value).Uint", "(reflect.Value).Int", "(reflect.Value).Bool", "(reflect.Value).Bytes", "(reflect.Value).String", "reflect.TypeOf", "reflect.ValueOf",
 	"(reflect.Kind).String", "(*reflect.rtype).",
 	"golang.org/x/crypto/sha3.", "(hash.Hash).", "crypto/sha256.Sum256",
+}
+
+// decodeInto: functions whose only effect is to overwrite the object a pointer argument refers to.
+var decodeInto = map[string]int{
+	"encoding/json.Unmarshal":                   1,
+	"github.com/gogo/protobuf/proto.Unmarshal":  1,
+	"github.com/golang/protobuf/proto.Unmarshal": 1,
+	"(*time.Time).UnmarshalBinary":              0,
+	"(*time.Time).UnmarshalJSON":                0,
+	"(*math/big.Int).SetBytes":                  0,
+	"(*math/big.Int).SetString":                 0,
 }
 
 func isEffectFree(full string) bool {
@@ -136,6 +150,29 @@ func (vc *VC) call(fr *Frame, st *State, ins ssa.Instruction, cc *ssa.CallCommon
 	if callee != nil && strings.HasPrefix(full, modulePath+"/src/common.IsProposal") && len(cc.Args) == 0 {
 		setRes(Val{T: vc.flagConst(callee.Name())})
 		return
+	}
+	// decode-into functions write only the object their pointer argument refers to
+	if callee != nil {
+		if idx, ok := decodeInto[full]; ok && idx < len(args) {
+			vc.libUsed[full+" (writes only its target)"]++
+			tgt := args[idx]
+			if mi, isMI := cc.Args[idx].(*ssa.MakeInterface); isMI {
+				tgt = vc.operand(fr, st, mi.X)
+			}
+			if tgt.P != nil {
+				nv := vc.declFresh("decoded", vc.sortOf(tgt.P.Typ))
+				vc.assumeWF(st, nv, tgt.P.Typ)
+				vc.storePlace(st, tgt.P, nv)
+			} else {
+				vc.havocAll(st)
+			}
+			if idx == 0 && len(argTypes) > 0 && types.Identical(resType, argTypes[0]) {
+				setRes(args[0]) // fluent setters return their receiver
+				return
+			}
+			setRes(vc.freshVal(st, "dec!"+shortName(full), resType))
+			return
+		}
 	}
 	// 1. library model
 	if callee != nil {
@@ -678,7 +715,11 @@ func (vc *VC) appendOp(fr *Frame, st *State, cc *ssa.CallCommon, args []Val, pos
 	}
 	h2 := tStore(h, newRef, fresh)
 	h1 := tStore(h, sRef, inPlace)
+	vc.loopWriteCheck(st, comp, sRef.S, fits)
+	vc.pendingRef = newRef.S
 	vc.heapSet(st, comp, vc.define(comp, tIte(fits, h1, h2)))
+	vc.pendingRef = ""
+	vc.noteWriteRef(comp, sRef.S)
 	r := tIte(fits, vc.mkSlice(sRef, sOff, newLen, sCap), vc.mkSlice(newRef, vc.idxLit(0), newLen, newCap))
 	return Val{T: vc.define("app!res", r)}
 }
@@ -770,7 +811,9 @@ func (vc *VC) copyOp(fr *Frame, st *State, cc *ssa.CallCommon, args []Val, pos t
 		is.Name, na.S, vc.idxLe(dOff, iv).S, vc.idxLt(iv, vc.idxAdd(dOff, n)).S,
 		srcArr.S, vc.idxAdd(sOff, vc.idxSub(iv, dOff)).S, dstArr.S, na.S)
 	vc.assume(st, mk(q, sortBool))
+	vc.pendingRef = dRef.S
 	vc.heapSet(st, comp, vc.define(comp, tStore(h, dRef, na)))
+	vc.pendingRef = ""
 	return Val{T: n}
 }
 
